@@ -328,6 +328,19 @@ def m_opt_take(px, st, fr, ev):
     return val(old, do=do)
 
 
+@model("std::option::Option::<T>::insert", reason="Option::insert(v): stores Some(v) and returns a reference to the payload")
+def m_opt_insert(px, st, fr, ev):
+    a = ev["args"][0]
+    if a[0] != "ref":
+        return None
+    new = some(ev["args"][1])
+
+    def do(s):
+        px._write(s, a[1], a[2], new)
+        px.emit(s, {"k": "write", "fn": fr.info.name, "bb": fr.bb, "root": a[1], "path": a[2], "value": new, "via": "Option::insert"})
+    return val(("ref", a[1], a[2] + (("as", "Some"), ("f", "0")), True), do=do)
+
+
 @model("std::option::Option::<T>::as_mut", "std::option::Option::<T>::as_ref",
        reason="as_mut/as_ref: Some(&mut x) / None following the referent's variant")
 def m_opt_as_mut(px, st, fr, ev):
